@@ -16,6 +16,7 @@ package types
 
 //@ func Equals
 //@   props C17 C01 C05 C07 C16
+//@   modifies allmaps(util.PtrPtrSet), allmaps(util.PtrSet)
 //@   requires wfT(x) && wfT(y)
 //@   nopanic
 //@   ensures #spec result == tyEq(x, y)
